@@ -457,15 +457,22 @@ Definition parse_int (s:list N) (base:Z) : option Z :=
   | _ :: _ => parse_digits base s 0
   | [] => None end.
 Definition simple_numeral (s:list N) : bool := forallb (fun c => match digit_val c with Some _ => true | None => N.eqb c 45 || N.eqb c 43 end) s.
+(* a printable ASCII character that is no digit, letter, sign or underscore: no spelling of an integer in any base contains one *)
+Definition hopeless_numeral (s:list N) : bool :=
+  existsb (fun c => let z := Z.of_N c in (33 <=? z) && (z <=? 126) && negb (match digit_val c with Some _ => true | None => false end) && negb (N.eqb c 45 || N.eqb c 43 || N.eqb c 95)) s.
 Definition bi_integer (sp:span) (argv:list value) : Comp value :=
   vs <- match_arguments sp argv (orp is_real is_str) [1%nat; 2%nat] ;;
   match vs with
   | VInt n :: rest => check_arity sp (length vs) [1%nat] ;;; Ret (VInt n)
   | VFloat f :: rest => check_arity sp (length vs) [1%nat] ;;; match rounding 0 f with Some n => Ret (VInt n) | None => raise c_value sp (* repaired: host OverflowError / ValueError *) end
-  | [VStr s] => if simple_numeral s then match parse_int s 10 with Some n => Ret (VInt n) | None => raise c_value sp end else raise c_unmodelled sp
+  | [VStr s] => if simple_numeral s then match parse_int s 10 with Some n => Ret (VInt n) | None => raise c_value sp end
+                else if hopeless_numeral s then raise c_value sp else raise c_unmodelled sp
   | [VStr s; VInt b] =>
-      if (2 <=? b) && (b <=? 36) && simple_numeral s
-      then match parse_int s b with Some n => Ret (VInt n) | None => raise c_value sp end else raise c_unmodelled sp
+      if (2 <=? b) && (b <=? 36) then
+        if simple_numeral s then match parse_int s b with Some n => Ret (VInt n) | None => raise c_value sp end
+        else if hopeless_numeral s then raise c_value sp else raise c_unmodelled sp
+      else if (b =? 0) || (2147483648 <=? Z.abs b) then raise c_unmodelled sp      (* base 0: the literal prefixes; a base the host cannot take as a C integer *)
+      else raise c_value sp                                                       (* int(): base must be >= 2 and <= 36, or 0 *)
   | [VStr _; _] => raise c_type sp
   | _ => raise c_type sp end.
 
